@@ -345,3 +345,36 @@ def unit_rejects_non_words(ctx, rule, core):
     unit = [i for i in core["impls"] if i["trait"] == "darling_core::from_meta::FromMeta" and i["self"] == "()"]
     ctx.ob(rule, "<() as FromMeta>", "overridden hooks", len(unit) == 1 and unit[0]["items"] == ["from_word"],
            "`()` overrides %s; Flag::from_meta (used by the derive-time `flatten` option and by Flag fields) calls unwrap_err() on <()>::from_meta for every non-path item" % [u["items"] for u in unit])
+
+
+def buffers_only_pushed(ctx, rule):
+    """`__flatten` (unknown items kept for the flatten field) and `__fwd_attrs` (forwarded attributes)
+    live across list items and across attributes.  Wherever a generator mentions them, it pushes to
+    them, passes them by reference, moves them out once at the end, or declares them in a
+    declaration generator; it never assigns or re-declares them in per-item / per-attribute code
+    (that would drop what earlier items or attributes contributed, or change their order)."""
+    from vlib import tpl
+    core = ctx.core("on")
+    n = 0
+    for g in ctx.all_bodies(core):
+        if not derive_file(g) or scan.is_test_body(g):
+            continue
+        T = tpl.Templates(g)
+        if not T.events:
+            continue
+        declarer = "eclaration" in g.key
+        for s in T.by_stream:
+            toks = T.by_stream[s]
+            for i, tk in enumerate(toks):
+                if tk.kind == "ident" and tk.text in ("__flatten", "__fwd_attrs"):
+                    n += 1
+                    nxt = [(x.kind, x.text) for x in toks[i + 1:i + 3]]
+                    prev = [(x.kind, x.text) for x in toks[max(0, i - 2):i]]
+                    is_push = nxt[:2] == [("punct", "."), ("ident", "push")]
+                    is_read_arg = bool(prev) and prev[-1] == ("punct", "&")
+                    is_decl = declarer and prev[-2:] == [("ident", "let"), ("ident", "mut")]
+                    is_move_out = not nxt or nxt[0] in (("punct", ")"), ("punct", ",")) or (bool(prev) and prev[-1] in (("punct", "("), ("punct", ","))) and (not nxt or nxt[0] != ("punct", "="))
+                    ok = is_push or is_read_arg or is_decl or (is_move_out and not (nxt and nxt[0] == ("punct", "=")))
+                    ctx.ob(rule, g.key, "%s in template" % tk.text, ok,
+                           "the buffer may only be `.push(..)`-ed, borrowed, handed over at the end or declared by a declaration generator; found `%s %s %s`: reassigning or re-declaring it drops items read from earlier list items / attributes" % (" ".join(str(x[1]) for x in prev), tk.text, " ".join(str(x[1]) for x in nxt)))
+    ctx.floor(rule, "mentions of the cross-attribute buffers in templates", n, 6)
